@@ -163,6 +163,50 @@ def make_modifier(rec, mid, spec):
     return modifier
 
 
+class DualCallable:
+    """ONE object registered both as the source of a pipeline and as a modifier (of the same or another pipeline).
+    Observation convention: an evaluation of it counts as a source evaluation iff nothing was evaluated before it in the
+    current pipeline call (the property puts the source first); it then returns its entry, otherwise it acts as the
+    modifier described by its modifier spec."""
+
+    def __init__(self, rec, did, sspec, mspec):
+        self._rec, self.vid, self.name, self._s, self._m = rec, did, f"c14_dual_{did}", sspec, mspec
+        self._a, self._b = float(fr(mspec["a"])), float(fr(mspec["b"]))
+
+    def __call__(self, *args, **kwargs):
+        rec = self._rec
+        as_source = rec.cur is not None and len(rec.cur) == 0
+        if as_source:
+            out = eval_entry(self._s["entries"][0], args)
+            rec.cur.append({"k": "src", "id": self.vid, "args": canon_args(args, kwargs), "ret": canon_value(out)})
+            return out
+        if self._m["conv"] == "replace":
+            value, rest = args[-1], args[:-1]
+            out, last = affine(self._a, self._b, value), canon_value(value)
+        else:
+            rest, last = args, None
+            out = eval_entry(self._m["entry"], args)
+        if rec.cur is not None:
+            rec.cur.append({"k": "mod", "id": self.vid, "args": canon_args(rest, kwargs), "last": last, "ret": canon_value(out)})
+        return out
+
+
+class EqCallable:
+    """Distinct callable objects that compare EQUAL (and hash alike) when they share an eqkey."""
+
+    def __init__(self, fn, eqkey):
+        self._fn, self.vid, self.name, self._eqkey = fn, fn.vid, fn.__name__, eqkey
+
+    def __call__(self, *args, **kwargs):
+        return self._fn(*args, **kwargs)
+
+    def __eq__(self, other):
+        return isinstance(other, EqCallable) and other._eqkey == self._eqkey
+
+    def __hash__(self):
+        return hash(("c14_eq", self._eqkey))
+
+
 def make_custom_post(rec, cid, spec):
     c, d = float(fr(spec["c"])), float(fr(spec["d"]))
 
@@ -327,6 +371,23 @@ def run_context(case):
             return values.union_post_processor
         return custom_posts[spec[1]]
 
+    objs = {}               # callable id -> THE object (one object per id, however often and wherever it is registered)
+
+    def get_obj(kind, oid, owner):
+        if oid in objs:
+            return objs[oid]
+        ssp, msp = case["sources"].get(str(oid)), case["mods"].get(str(oid))
+        if ssp is not None and msp is not None:
+            o = DualCallable(rec, oid, ssp, msp)
+        elif kind == "src":
+            o = flavoured(make_source(rec, oid, ssp), ssp["flavour"], owner, ssp.get("truthy", True))
+        elif msp.get("eqkey") is not None:
+            o = EqCallable(make_modifier(rec, oid, msp), msp["eqkey"])
+        else:
+            o = flavoured(make_modifier(rec, oid, msp), msp["flavour"], owner)
+        objs[oid] = o
+        return o
+
     custom_posts = {}
     for cid, sp in case["posts"].items():
         fn = make_custom_post(rec, int(cid), sp)
@@ -360,7 +421,7 @@ def run_context(case):
                             reg_log.append({"act": ["get", q], "code": 0, "err": None,
                                             "snap": read_registry(shared["get_value"], shared["touched"])})
                         else:
-                            fn = flavoured(make_source(rec, sid, sp), sp["flavour"], self, sp.get("truthy", True))
+                            fn = get_obj("src", sid, self)
                         comb = values.replace_combiner if sp["comb"] == 0 else values.list_combiner
                         if sp["post"] == ["rescale"] and sp["comb"] == 0 and sp.get("via_rate") and not sp.get("nested"):
                             builder.value.register_rate_producer(NAMES[n], fn)
@@ -370,7 +431,7 @@ def run_context(case):
                     elif act[0] == "mod":
                         _, n, mid = act
                         sp = case["mods"][str(mid)]
-                        builder.value.register_value_modifier(NAMES[n], flavoured(make_modifier(rec, mid, sp), sp["flavour"], self))
+                        builder.value.register_value_modifier(NAMES[n], get_obj("mod", mid, self))
                     elif act[0] == "get":
                         handles[act[1]] = builder.value.get_value(NAMES[act[1]])
                 except Exception as e:
@@ -870,6 +931,14 @@ def run_case(case):
             tags.add("call_skip")
         if spec.get("kwargs"):
             tags.add("call_kwargs")
+        mids = [t["id"] for t in c["trace"] if t["k"] == "mod"]
+        if len(set(mids)) < len(mids):
+            tags.add("call_same_object_applied_repeatedly")
+        if any(str(m) in case["sources"] for m in mids):
+            tags.add("call_dual_source_and_modifier_object")
+        eqs = [case["mods"][str(m)].get("eqkey") for m in mids if str(m) in case["mods"]]
+        if any(k is not None and eqs.count(k) > 1 for k in eqs):
+            tags.add("call_equal_but_distinct_objects")
         if len([t for t in c["trace"] if t["k"] == "src"]) == 1 and c["trace"][0]["k"] == "src":
             owner = next((e["act"][1] for e in reg_log if e["act"][0] == "prod" and e["act"][2] == c["trace"][0]["id"]), None)
             if owner is not None and owner != spec["pipe"]:
@@ -960,6 +1029,15 @@ def gen_case(rng: random.Random):
             mods[str(mid)] = {"a": rng.choice(A_CHOICES), "b": rng.choice(B_CHOICES), "entry": None, "conv": None,
                               "flavour": rng.choice(["func", "func", "method", "obj"])}
             actions.append((p, ["mod", p, mid]))
+        if nm and rng.random() < 0.35:              # the SAME object registered again for this pipeline (1-2 more times)
+            again = rng.choice([a[1][2] for a in actions if a[0] == p and a[1][0] == "mod"])
+            for _ in range(rng.choice([1, 1, 2])):
+                actions.append((p, ["mod", p, again]))
+        if nm >= 2 and rng.random() < 0.25:         # two DISTINCT objects of this pipeline that compare equal
+            ms = [a[1][2] for a in actions if a[0] == p and a[1][0] == "mod"]
+            m1, m2 = rng.sample(sorted(set(ms)), 2) if len(set(ms)) >= 2 else (None, None)
+            if m1 is not None:
+                mods[str(m1)]["eqkey"] = mods[str(m2)]["eqkey"] = p
         for _ in range(rng.choice([0, 0, 1])):
             actions.append((p, ["get", p]))
         plans[p] = {"scalar_only": scalar_only}
@@ -1003,6 +1081,36 @@ def gen_case(rng: random.Random):
                 # contribution to the bit length small so that the product stays exact in binary64
                 mods[str(act[2])]["a"] = rng.choice([[1, 1], [1, 2]])
                 mods[str(act[2])]["b"] = rng.choice([[0, 1], [1, 4]])
+    def winner(p):
+        return sources.get(str(first.get(p)))
+
+    def plain(p):           # no union post-processor (its inputs must be probabilities) - sharing stays exact
+        w = winner(p)
+        return w is None or w["post"] != ["union"]
+    regs = [c for c in comps]
+    # the same modifier object registered for ANOTHER pipeline too (same calling convention)
+    for act in list(executed):
+        if act[0] == "mod" and npipes > 1 and rng.random() < 0.15:
+            p2 = rng.choice([q for q in range(1, npipes + 1) if q != act[1]])
+            conv2 = "list" if (winner(p2) and winner(p2)["comb"] == 1) else "replace"
+            if mods[str(act[2])]["conv"] == conv2 and plain(act[1]) and plain(p2) and not mods[str(act[2])].get("dual"):
+                comp = rng.choice(regs)
+                comp["actions"].insert(rng.randint(0, len(comp["actions"])), ["mod", p2, act[2]])
+    # ONE object as the source of a pipeline and as a modifier of the same / another pipeline
+    for p in range(1, npipes + 1):
+        w = winner(p)
+        prods_p = [a for a in executed if a[0] == "prod" and a[1] == p]
+        if (w is None or w.get("nested") or w["list"] or not plain(p) or len(prods_p) != 1 or rng.random() > 0.25):
+            continue
+        sid = first[p]
+        p2 = p if rng.random() < 0.4 else rng.randint(1, npipes)
+        if not plain(p2):
+            continue
+        conv2 = "list" if (winner(p2) and winner(p2)["comb"] == 1) else "replace"
+        mods[str(sid)] = {"a": rng.choice([[1, 1], [1, 2], [2, 1]]), "b": rng.choice(B_CHOICES), "entry": w["entries"][0],
+                          "conv": conv2, "flavour": "obj", "dual": True}
+        comp = rng.choice(regs)
+        comp["actions"].insert(rng.randint(0, len(comp["actions"])), ["mod", p2, sid])
     comps.append({"name": "c14_caller", "actions": [["get", p] for p in range(1, npipes + 1)]})
     calls = []
     for _ in range(rng.randint(3, 9)):
